@@ -6,7 +6,7 @@ from inscripta.biocantor.exc import (
 )
 
 from harness.common import (
-    AND, IFF, ITE, MINUS, NOT, OR, PLUS, SUM, CompoundInterval, EmptyLocation, SingleInterval, Strand, blocks_of,
+    AND, DEQ, IFF, ITE, MINUS, NOT, OR, PLUS, SUM, CompoundInterval, EmptyLocation, SingleInterval, Strand, blocks_of,
     layout_blocks, layout_params, layout_pre, make_location, member, rel_of_pos, same_blocks, sname, total_len, walk_pos,
     wellformed,
 )
@@ -136,6 +136,77 @@ def p2r_derived(k, strand, how):
         except InvalidPositionException:
             return NOT(inside)
         return AND(inside, got >= 0, got < total_len(sb), walk_pos(sb, d.strand, got) == p, d.relative_to_parent_pos(got) == p, total_len(sb) == total_len(bl))
+
+    return fn
+
+
+def flip_derived(k, strand, how, warm):
+    """strand-flipped / re-parented COPIES of a location (blocks may overlap, nest or share a start - the block order of such layouts depends on the strand)
+    answer every point query like a location built afresh with the new strand, whatever was asked of the source before the copy was made"""
+
+    def fn(**kw):
+        bl, loc = _mk(k, strand, kw, True)
+        r, p = kw["r"], kw["p"]
+        if warm:  # fill the source's lazy slots first
+            try:
+                loc.relative_to_parent_pos(0)
+                loc.parent_to_relative_pos(bl[0][0])
+            except InvalidPositionException:
+                pass
+        new_strand = strand.reverse() if how != "same" else strand
+        d = {"reverse": lambda: loc.reverse_strand(), "reset": lambda: loc.reset_strand(new_strand), "same": lambda: loc.reset_strand(strand)}[how]()
+        fresh = CompoundInterval([b[0] for b in bl], [b[1] for b in bl], new_strand)
+        n = total_len(bl)
+        conds = [d.strand is new_strand, len(d) == n, DEQ([(b.start, b.end) for b in d.blocks], [(b.start, b.end) for b in fresh.blocks])]
+        try:
+            a = d.relative_to_parent_pos(r)
+        except InvalidPositionException:
+            a = None
+        try:
+            b = fresh.relative_to_parent_pos(r)
+        except InvalidPositionException:
+            b = None
+        conds.append((a is None and b is None) if (a is None or b is None) else a == b)
+        try:
+            a = d.parent_to_relative_pos(p)
+        except InvalidPositionException:
+            a = None
+        try:
+            b = fresh.parent_to_relative_pos(p)
+        except InvalidPositionException:
+            b = None
+        conds.append((a is None and b is None) if (a is None or b is None) else a == b)
+        return AND(*conds)
+
+    return fn
+
+
+def scan_windows_overlapping(k, strand):
+    """scan_windows over a location whose blocks may overlap / nest: the i-th window is relative_interval_to_parent_location(start + i*step, .. + w) - every
+    window, not only the first (compared block for block and base for base). Realised leg."""
+    from vlib.sym import concretize, untraced
+
+    def fn(**kw):
+        names = sorted(kw)
+        vals = concretize(*[kw[n] for n in names])
+        kw = dict(zip(names, vals if isinstance(vals, list) else [vals]))
+        with untraced():
+            bl, loc = _mk(k, strand, kw, True)
+            w, step, start = kw["w"], kw["step"], kw["start"]
+            n = sum(e - s_ for s_, e in bl)
+            wins = list(loc.scan_windows(w, step, start))
+            if len(wins) != len(range(start, n - w + 1, step)):
+                return False
+            for i, win in enumerate(wins):
+                ref = loc.relative_interval_to_parent_location(start + i * step, start + i * step + w, Strand.PLUS)
+                if len(win) != w or win.strand is not strand or [(b.start, b.end) for b in win.blocks] != [(b.start, b.end) for b in ref.blocks]:
+                    return False
+                if [win.relative_to_parent_pos(j) for j in range(w)] != [ref.relative_to_parent_pos(j) for j in range(w)]:
+                    return False
+                # the window holds the right bases (as a multiset: the order inside a sub-interval of overlapping blocks is finding F12)
+                if sorted(win.relative_to_parent_pos(j) for j in range(w)) != sorted(loc.relative_to_parent_pos(start + i * step + j) for j in range(w)):
+                    return False
+            return True
 
     return fn
 
@@ -508,7 +579,7 @@ def obligations(tier):
                                    bounds="k=2 blocks with signed gaps, unbounded ints", examples=[dict(s0=5, l0=6, l1=4, g1=2, a=1, b=9, i=3, p=4)]))
     if True:
         for strand in (PLUS, MINUS):
-            for k in ((3,) if tier == "quick" else (2, 3)):
+            for k in (2, 3):
                 params = dict(layout_params(k))
                 params["p"] = int
 
@@ -531,6 +602,32 @@ def obligations(tier):
                                desc="overlapping/nested blocks: parent_to_relative_pos returns an index whose base is p; uncovered p refused",
                                bounds="k=%d blocks with signed gaps (overlap, nesting, any order), unbounded ints" % k,
                                examples=[dict(s0=5, l0=6, l1=4, g1=-3, p=9) if k == 2 else dict(s0=5, l0=6, l1=4, l2=3, g1=-3, g2=-2, p=9)]))
+                if k == 2:
+                    for how in ("reverse", "reset", "same"):
+                        for warm in ((True,) if tier == "quick" else (True, False)):
+                            fp = dict(params)
+                            fp.pop("p", None)
+                            fp.update(r=int, p=int)
+                            out.append(Obl("flip_derived_%s_%s_k%d_%s" % (how, "warm" if warm else "cold", k, sname(strand)), flip_derived(k, strand, how, warm), fp, pre,
+                                           budget=600, cost=40,
+                                           desc="%s copy of a location with overlapping / nested / shared-start blocks, made %s point queries on the source: blocks, length "
+                                                "and both point maps equal those of a location built afresh with the new strand" % (
+                                                    {"reverse": "reverse_strand()", "reset": "reset_strand(opposite)", "same": "reset_strand(same)"}[how],
+                                                    "AFTER" if warm else "before any"),
+                                           bounds="k=2 blocks with signed gaps and lengths >= 0, unbounded ints",
+                                           examples=[dict(s0=0, l0=5, l1=10, g1=-5, r=3, p=7), dict(s0=5, l0=6, l1=4, g1=-3, r=0, p=9)]))
+                    sp = dict(params)
+                    sp.pop("p", None)
+                    sp.update(w=int, step=int, start=int)
+                    out.append(Obl("scan_windows_overlapping_k%d_%s" % (k, sname(strand)), scan_windows_overlapping(k, strand), sp,
+                                   lambda s0, l0, l1, g1, w, step, start: 0 <= s0 and s0 <= 1 and (l0 == 2 or l0 == 5 or l0 == 10) and (l1 == 3 or l1 == 4 or l1 == 12) and
+                                   (g1 == -l0 or g1 == -2 or g1 == -1 or g1 == 0 or g1 == 3) and 2 <= w and w <= 3 and (step == 1 or step == 3) and 0 <= start and start <= 1
+                                   and s0 + l0 + g1 >= 0 and start + w <= l0 + l1, budget=900, cost=90,
+                                   desc="scan_windows on overlapping / nested / shared-start / abutting blocks: EVERY window has the requested length and strand, is exactly "
+                                        "relative_interval_to_parent_location(start + i*step, + w) and holds the bases of that stretch; as many windows as fit",
+                                   bounds="k=2 blocks: lengths {2,5,10} x {3,4,12}, second block starting at the first's start / 2 or 1 before its end / at its end / 3 after, "
+                                          "window 2..3, step 1 or 3, start 0..1 (realised)",
+                                   examples=[dict(s0=0, l0=10, l1=12, g1=-2, w=3, step=3, start=0), dict(s0=1, l0=5, l1=4, g1=-5, w=2, step=1, start=1)]))
                 if k == 3:
                     for how in (("optimize",) if tier == "quick" else ("optimize", "sub")):
                         out.append(Obl("p2r_derived_%s_k%d_%s" % (how, k, sname(strand)), p2r_derived(k, strand, how), params, pre, budget=600, cost=40,
